@@ -84,6 +84,10 @@ public:
 
   std::string recName(const RecordDecl *RD) {
     if (!RD) return "";
+    if (!RD->getIdentifier()) {
+      // typedef struct { ... } Name;
+      if (const TypedefNameDecl *TD = RD->getTypedefNameForAnonDecl()) return TD->getQualifiedNameAsString();
+    }
     return RD->getQualifiedNameAsString();
   }
 
